@@ -213,6 +213,17 @@ def stepItp (st : DState) (cmd : String) (args : List String) : DState × String
                 (st, showRats gx ++ " | " ++ showRats wx)
             | _, _ => (st, "bad-op")
       | _, _ => (st, "bad-op")
+  -- itp.leja n wkind lb ub | candidates | points so far ("-": a fresh sequence)   wkind: const | quad (w z = 1 + z²)
+  --   → the sequence after n more points (objective = the generated `Gen.lejaObjNeg`, ideal minimiser over the candidates)
+  | "itp.leja", [[n, wk, lb, ub], cands, pts] =>
+      match n.toNat?, parseRat? lb, parseRat? ub, parseRats? cands with
+      | some nn, some l, some u, some cs =>
+          let w : Rat → Rat := if wk == "quad" then (fun z => 1 + z * z) else (fun _ => 1)
+          if pts == ["-"] then (st, showRats (lejaFresh w cs l u nn))
+          else match parseRats? pts with
+            | some ps => (st, showRats (lejaSeq w cs nn ps))
+            | none => (st, "bad-op")
+      | _, _, _, _ => (st, "bad-op")
   | "itp.snaptol", [[scale]] =>
       match parseRat? scale with
       | some sc => (st, showRat (Amisc.Gen.snapTol sc))
